@@ -96,7 +96,11 @@ class RouteLab(object):
         self.max_frames = max_frames
         self.nets = [L.LoggedNetwork(self, n) for n in topo["nets"]]
         self.stations = []
-        for i, (ni, mac, aware) in enumerate(topo["stations"]):
+        for i, st_ in enumerate(topo["stations"]):
+            ni, mac, aware = st_[0], st_[1], st_[2]
+            if len(st_) > 3:
+                self.stations.append(None)         # the application of router st_[4]: filled in when that router is built
+                continue
             nsap = L.NS.NetworkServiceAccessPoint()
             nse = L.NSE()
             L.bind(nse, nsap)
@@ -110,13 +114,25 @@ class RouteLab(object):
             nsap = L.NS.NetworkServiceAccessPoint()
             nse = L.NSE()
             L.bind(nse, nsap)
-            macs = []
+            macs = {}
             for ni in ports:
-                mac = 200 + ri
+                # station addresses are unique per network only: with "overlap" a router is numbered right after the stations of each of its
+                # networks, so its address on one network is some station's (or another router's) address on another
+                if topo.get("overlap"):
+                    mac = 1 + len([1 for s_ in topo["stations"] if s_[0] == ni and len(s_) == 3]) + len([1 for r_ in self.routers if ni in r_["ports"]])
+                else:
+                    mac = 200 + ri
                 node = L.vlan.Node(L.Address(mac), self.nets[ni])
                 nsap.bind(node, topo["nets"][ni], L.Address(mac))
-                macs.append(mac)
-            self.routers.append(dict(nsap=nsap, ports=list(ports), mac=200 + ri))
+                macs[ni] = mac
+            self.routers.append(dict(nsap=nsap, ports=list(ports), mac=200 + ri, macs=macs))
+            for i, st_ in enumerate(topo["stations"]):
+                if len(st_) > 3 and st_[4] == ri:
+                    # a router that also hosts a device: an application on top of its network layer, at home on its last-bound network
+                    up = L.Upper(i)
+                    L.bind(up, nsap)
+                    assert st_[0] == ports[-1] and st_[1] == macs[ports[-1]], (st_, ports, macs)
+                    self.stations[i] = dict(nsap=nsap, up=up, node=None, net=st_[0], mac=st_[1], aware=True)
         # graph: distance in routers between networks, and the router MAC that feeds each network from a given source network
         self.adj = dict((i, []) for i in range(len(self.nets)))
         for ri, ports in enumerate(topo["routers"]):
@@ -161,7 +177,7 @@ def address_of(L, lab, kind, si, target):
         return L.GlobalBroadcast()
     if kind == "unicast":
         ti = target % len(topo["stations"])
-        tnet, tmac, _ = topo["stations"][ti]
+        tnet, tmac = topo["stations"][ti][0], topo["stations"][ti][1]
         snet = topo["stations"][si][0]
         if tnet == snet:
             return L.LocalStation(tmac)
@@ -205,6 +221,8 @@ def run_tree(topo, msgs):
                 continue                    # a station that does not know its network cannot know this is its own
             if kind == "unicast" and (target % len(topo["stations"])) == si:
                 continue
+            if len(topo["stations"][si]) > 3:
+                continue                    # the device hosted by a router only receives here (what it originates leaves from several networks at once)
             tok_n[0] += 1
             token = b"K%04d" % tok_n[0]
             batch.append((si, kind, target, token))
@@ -258,6 +276,12 @@ def run_tree(topo, msgs):
                 same = topo["stations"][j][0] == snet
                 ok = (src.addrType == L.Address.localStationAddr and src.addrAddr == bytes([topo["stations"][si][1]])) if same else \
                      (src.addrType == L.Address.remoteStationAddr and src.addrNet == topo["nets"][snet] and src.addrAddr == bytes([topo["stations"][si][1]]))
+                if not ok and len(topo["stations"][si]) > 3:
+                    # the device hosted by a router is at home on every network the router is attached to: any of its (network, address) pairs names it
+                    r_ = lab.routers[topo["stations"][si][4]]
+                    rnet = topo["stations"][j][0]
+                    ok = any((src.addrType == L.Address.localStationAddr and p_ == rnet and src.addrAddr == bytes([m_])) or
+                             (src.addrType == L.Address.remoteStationAddr and src.addrNet == topo["nets"][p_] and src.addrAddr == bytes([m_])) for p_, m_ in r_["macs"].items())
                 if not ok:
                     fails.append(("wrong-source-address:%s" % kind, "%s: recipient %d was shown source %s" % (desc, j, src)))
                     break
@@ -271,7 +295,7 @@ def run_tree(topo, msgs):
                     continue
                 ni = topo["nets"].index(f["net"])
                 d, feeder = paths[ni]
-                allowed_src = topo["stations"][si][1] if d == 0 else 200 + feeder
+                allowed_src = topo["stations"][si][1] if d == 0 else lab.routers[feeder]["macs"][ni]
                 if f["src"] != allowed_src:
                     fails.append(("sent-back-or-sideways:%s" % kind, "%s: the packet appears on net %d sent by MAC %r; only MAC %r lies on the path from the source" % (desc, f["net"], f["src"], allowed_src)))
                     break
@@ -288,7 +312,7 @@ def run_tree(topo, msgs):
             for j in want:
                 s = lab.stations[j]
                 recs = [(data, src, dst) for (data, src, dst) in s["up"].got[got_before[j]:] if data == token]
-                if not recs:
+                if not recs or len(topo["stations"][j]) > 3:
                     continue
                 tok_n[0] += 1
                 rtoken = b"R%04d" % tok_n[0]
@@ -412,7 +436,17 @@ def topo_strategy():
             cnt, awareness = stations[ni % len(stations)]
             for j in range(cnt):
                 sts.append([ni, 1 + j, bool((awareness >> j) & 1)])
-        return dict(nets=nets, routers=routers, stations=sts)
+        overlap = bool(fanouts[0] % 2 == 1 or len(attach) % 2 == 0)
+        if attach[0] % 2 == 0 and routers:
+            # one router also hosts a device (an application bound on top of its network layer)
+            ri_ = attach[-1] % len(routers)
+            ni_ = routers[ri_][-1]
+            if overlap:
+                mac_ = 1 + len([1 for s_ in sts if s_[0] == ni_]) + len([1 for r_ in routers[:ri_] if ni_ in r_])
+            else:
+                mac_ = 200 + ri_
+            sts.append([ni_, mac_, True, "router", ri_])
+        return dict(nets=nets, routers=routers, stations=sts, overlap=overlap)
     netno = st.one_of(st.sampled_from([1, 2, 3, 65534, 100, 255, 256]), st.integers(1, 65534))
     return st.tuples(st.integers(2, 8), st.lists(netno, min_size=12, max_size=12, unique=True), st.lists(st.integers(1, 3), min_size=1, max_size=4),
                      st.lists(st.integers(0, 7), min_size=1, max_size=4), st.lists(st.tuples(st.integers(1, 3), st.integers(0, 7)), min_size=1, max_size=4)).map(build)
